@@ -15,6 +15,7 @@ import (
 	gojson "github.com/goccy/go-json"
 
 	"verif/harness/rt"
+	"verif/harness/zoo"
 )
 
 // C07 — decoding touches only the destination: no stray reads or writes.
@@ -420,10 +421,11 @@ func c07Case(c *rt.Ctx, sub int, t reflect.Type, fdesc string, doc []byte, seed 
 // canaries; pre-painted destinations, buffer and stream mode.
 func c07StringOpt(c *rt.Ctx, sub0 int) {
 	canary := reflect.TypeOf([16]byte{})
+	opt := ",string"
 	mk := func(kinds []reflect.Type) reflect.Type {
 		fs := []reflect.StructField{{Name: "K0", Type: canary, Tag: `json:"-"`}}
 		for i, k := range kinds {
-			fs = append(fs, reflect.StructField{Name: fmt.Sprintf("F%d", i), Type: k, Tag: reflect.StructTag(fmt.Sprintf(`json:"f%d,string"`, i))})
+			fs = append(fs, reflect.StructField{Name: fmt.Sprintf("F%d", i), Type: k, Tag: reflect.StructTag(fmt.Sprintf(`json:"f%d%s"`, i, opt))})
 		}
 		fs = append(fs, reflect.StructField{Name: "K1", Type: canary, Tag: `json:"-"`})
 		return reflect.StructOf(fs)
@@ -433,6 +435,10 @@ func c07StringOpt(c *rt.Ctx, sub0 int) {
 		mk([]reflect.Type{reflect.TypeOf(false)}), mk([]reflect.Type{reflect.TypeOf(int32(0)), reflect.TypeOf(float32(0))}), mk([]reflect.Type{reflect.TypeOf(""), reflect.TypeOf(int8(0))}),
 		mk([]reflect.Type{reflect.TypeOf(uint16(0)), reflect.TypeOf(uint16(0)), reflect.TypeOf(uint16(0))}), mk([]reflect.Type{reflect.TypeOf(new(int8)), reflect.TypeOf(int8(0))}),
 	}
+	// members whose types decode themselves (UnmarshalText / UnmarshalJSON) and are narrower than a word
+	opt = ""
+	types = append(types, mk([]reflect.Type{reflect.TypeOf(zoo.UT8(0)), reflect.TypeOf(zoo.UT8(0)), reflect.TypeOf(zoo.UJ8(0))}), mk([]reflect.Type{reflect.TypeOf(zoo.UT16{}), reflect.TypeOf(zoo.UT8(0))}),
+		mk([]reflect.Type{reflect.TypeOf(zoo.UJ8(0))}), mk([]reflect.Type{reflect.TypeOf(new(zoo.UT8)), reflect.TypeOf(zoo.UT8(0))}))
 	payload := func(t reflect.Type) string {
 		switch t.Kind() {
 		case reflect.Bool:
